@@ -3,8 +3,10 @@
    value [v] of type [src]: used with src = old for reading an old stream with the new code, and with src = new for writing
    to an old version.  Unchanged parts are kept exactly, removed parts dropped, added parts take the zero value, a scalar and
    the optional / union containing it convert both ways, integers convert when the value is representable.
-   Conversions the model does not cover (number <-> string, floating point <-> integer, changes of width between floating
-   point types, out-of-range integers) yield None: the harness generates none of them. *)
+   Integers convert to floating point by rounding to nearest-even, floating point to integers by rounding half away from zero
+   (std::round) with a runtime error when the integer type cannot hold the result, float32 widens exactly to float64.
+   Conversions the model does not cover (number <-> string, float64 -> float32, complex widths) yield None: the harness
+   generates none of them. *)
 From Coq Require Import List NArith ZArith Bool.
 From YV Require Import Base.Wire Model.Binary Gen.Tables Model.Json Model.Schema Model.Evolution.
 Import ListNotations.
@@ -84,6 +86,65 @@ Fixpoint conv_list (f : val -> option val) (l : list val) : option (list val) :=
   | x :: r => match f x, conv_list f r with Some y, Some ys => Some (y :: ys) | _, _ => None end
   end.
 
+(* ---------- conversions between integers and IEEE floating point (pure integer arithmetic on the bit patterns) ---------- *)
+Open Scope Z_scope.
+
+(* (precision incl. hidden bit, exponent field width) *)
+Definition fmt_of (p : prim) : option (Z * Z) :=
+  match p with PFloat32 => Some (24, 8) | PFloat64 => Some (53, 11) | _ => None end.
+
+(* static_cast<float/double>(integer): round to nearest, ties to even; every 64-bit integer is in range *)
+Definition z_to_float (prec ew : Z) (z : Z) : N :=
+  if z =? 0 then 0%N
+  else
+    let sgn := if z <? 0 then 1 else 0 in
+    let a := Z.abs z in
+    let k := Z.log2 a in
+    let bias := 2 ^ (ew - 1) - 1 in
+    let '(q, k') :=
+      if k <? prec then (a * 2 ^ (prec - 1 - k), k)
+      else
+        let sh := k - (prec - 1) in
+        let q0 := a / 2 ^ sh in
+        let r := a mod 2 ^ sh in
+        let half := 2 ^ (sh - 1) in
+        let q1 := if (half <? r) || ((r =? half) && Z.odd q0) then q0 + 1 else q0 in
+        if q1 =? 2 ^ prec then (2 ^ (prec - 1), k + 1) else (q1, k) in
+    Z.to_N (sgn * 2 ^ (prec - 1 + ew) + (k' + bias) * 2 ^ (prec - 1) + (q - 2 ^ (prec - 1))).
+
+(* the real value of a finite bit pattern as (sign, mantissa, exponent): value = (-1)^sign * m * 2^e; None for inf / NaN *)
+Definition float_decode (prec ew : Z) (bits : N) : option (bool * Z * Z) :=
+  let b := Z.of_N bits in
+  let m := b mod 2 ^ (prec - 1) in
+  let e := (b / 2 ^ (prec - 1)) mod 2 ^ ew in
+  let s := 0 <? b / 2 ^ (prec - 1 + ew) in
+  let bias := 2 ^ (ew - 1) - 1 in
+  if e =? 2 ^ ew - 1 then None
+  else if e =? 0 then Some (s, m, 1 - bias - (prec - 1))
+  else Some (s, m + 2 ^ (prec - 1), e - bias - (prec - 1)).
+
+(* std::round: to the nearest integer, halfway cases away from zero *)
+Definition float_round (prec ew : Z) (bits : N) : option Z :=
+  match float_decode prec ew bits with
+  | None => None
+  | Some (s, m, e) =>
+      let a := if 0 <=? e then m * 2 ^ e
+               else let d := 2 ^ (- e) in if d <=? 2 * (m mod d) then m / d + 1 else m / d in
+      Some (if s then - a else a)
+  end.
+
+(* float32 -> float64 is exact *)
+Definition f32_to_f64 (bits : N) : N :=
+  match float_decode 24 8 bits with
+  | Some (s, m, e) => if m =? 0 then (if s then 2 ^ 63 else 0)%N
+                      else let k := Z.log2 m in
+                           Z.to_N ((if s then 2 ^ 63 else 0) + (e + k + 1023) * 2 ^ 52 + (m * 2 ^ (52 - k) - 2 ^ 52))
+  | None => (* inf / nan: sign, all-ones exponent, payload moved to the top of the mantissa *)
+      let b := Z.of_N bits in
+      Z.to_N ((if 0 <? b / 2 ^ 31 then 2 ^ 63 else 0) + 2047 * 2 ^ 52 + (b mod 2 ^ 23) * 2 ^ 29)
+  end.
+Open Scope N_scope.
+
 Section Conv.
 Variable rn : renames.
 
@@ -103,7 +164,26 @@ Fixpoint conv (fuel : nat) (src dst : ety) (v : val) {struct fuel} : option val 
       | EPrim a, EPrim b =>
           if prim_eqb a b then Some v
           else match v with
-               | VInt z => if is_int_prim a && is_int_prim b && int_ok b z then Some v else None
+               | VInt z =>
+                   if is_int_prim a && is_int_prim b then (if int_ok b z then Some v else None)
+                   else if is_int_prim a then
+                     match fmt_of b with Some (pr, ew) => Some (VBits (z_to_float pr ew z)) | None => None end
+                   else None
+               | VBits n =>
+                   match fmt_of a with
+                   | Some (pr, ew) =>
+                       if is_int_prim b then
+                         (* documented: rounds to the nearest whole number; a value the integer type cannot hold is a runtime error *)
+                         match float_round pr ew n with
+                         | Some z => if int_ok b z then Some (VInt z) else None
+                         | None => None
+                         end
+                       else match a, b with
+                            | PFloat32, PFloat64 => Some (VBits (f32_to_f64 n))
+                            | _, _ => None
+                            end
+                   | None => None
+                   end
                | _ => None
                end
       | EEnum _ _ _ _, EEnum _ _ _ _ => Some v
